@@ -57,6 +57,21 @@ pub fn build_pass_1(
         }
     }
 
+    // fail before the images are built: an .org or .byte far beyond the device would
+    // otherwise allocate the whole gap first
+    if code_offset > device.flash_size {
+        bail!(
+            "Flash size overdue by {} bytes",
+            (code_offset - device.flash_size) as u64 * 2
+        )
+    }
+    if eeprom_offset > device.eeprom_size {
+        bail!(
+            "Eeprom size overdue by {} bytes",
+            eeprom_offset - device.eeprom_size
+        )
+    }
+
     let ram_filling = data_offset - device.ram_start;
 
     Ok(BuildResultPass1 {
@@ -83,6 +98,14 @@ fn pass_1_internal(
     let mut out_items = vec![];
     let mut cur_address = current_offset;
 
+    // location counters must stay inside the 32-bit address space
+    let advance = |address: u32, units: u64, line: &CodePoint| -> Result<u32, Error> {
+        match u32::try_from(address as u64 + units) {
+            Ok(address) => Ok(address),
+            Err(_) => bail!("address out of range, {}", line),
+        }
+    };
+
     for (line, item) in &segment.items {
         #[cfg(feature = "verif-hooks")]
         crate::verif_hooks::point("pass1.item");
@@ -95,7 +118,7 @@ fn pass_1_internal(
             }
             Item::Instruction(op, _) => match segment.t {
                 SegmentType::Code => {
-                    cur_address += op.info(common_context).len;
+                    cur_address = advance(cur_address, op.info(common_context).len as u64, line)?;
                     out_items.push((*line, item.clone()));
                 }
                 _ => bail!(
@@ -111,19 +134,20 @@ fn pass_1_internal(
                 DataDefine::Db => {
                     let mut items = items.clone();
 
-                    cur_address += match segment.t {
+                    let units = match segment.t {
                         SegmentType::Code => {
                             (if items.actual_len() % 2 == 1 {
                                 items.push(Operand::E(Expr::Const(0x0)));
                                 items.actual_len()
                             } else {
                                 items.actual_len()
-                            }) as u32
+                            }) as u64
                                 / 2
                         }
-                        SegmentType::Eeprom => items.actual_len() as u32,
+                        SegmentType::Eeprom => items.actual_len() as u64,
                         _ => bail!(".db are not allowed in data segment, {}", line),
                     };
+                    cur_address = advance(cur_address, units, line)?;
 
                     out_items.push((*line, Item::Data(DataDefine::Db, items)));
                 }
@@ -134,18 +158,22 @@ fn pass_1_internal(
                         DataDefine::Dq => 8,
                         _ => 0,
                     };
-                    cur_address += match segment.t {
-                        SegmentType::Code => items.len() as u32 * (item_size / 2),
-                        SegmentType::Eeprom => items.len() as u32 * item_size,
+                    let units = match segment.t {
+                        SegmentType::Code => items.len() as u64 * (item_size / 2),
+                        SegmentType::Eeprom => items.len() as u64 * item_size,
                         _ => bail!(".dw are not allowed in data segment, {}", line),
                     };
+                    cur_address = advance(cur_address, units, line)?;
 
                     out_items.push((*line, item.clone()));
                 }
             },
             Item::ReserveData(size) => match segment.t {
                 SegmentType::Data | SegmentType::Eeprom => {
-                    cur_address += *size as u32;
+                    if *size < 0 {
+                        bail!(".byte with a negative size, {}", line);
+                    }
+                    cur_address = advance(cur_address, *size as u64, line)?;
                     if segment.t == SegmentType::Eeprom {
                         out_items.push((*line, item.clone()));
                     }
